@@ -138,6 +138,16 @@ Definition sc_header_with_altered_next_powers : list event :=
    EvRERespVRV (svw 2 1 [] [] [7] 15);
    EvView (svw 2 2 [] [mkPh [9] [2] 15 31 [109] false; mkPh [6] [2] 31 15 [106] false; mkPh [5] [2] 15 15 [105] false] [7] 15) None].
 
+(** the precommits seen while still counting prevotes exceed 2/3 in TOTAL, no block has a precommit majority, and the block
+    leading the precommits has a PREVOTE majority: that is no commit (a prevote majority locks nobody) - the machine must go
+    on to its own precommit decision, not ask the driver to finalize *)
+Definition sc_prevote_majority_is_no_precommit_quorum : list event :=
+  enter0 ++
+  [EvView (sv 1 0 2 (svs 0 0 [] []) [sph 7]) None;
+   EvAnswer 0 [7];
+   EvView (sv 1 0 3 (svs 30 30 [([7], 30)] [([7], 20); ([], 10)]) [sph 7]) None;
+   EvAnswer 0 [7]].
+
 Definition scenarios : list (list event) :=
   [sc_nil_prevote_restart_block; sc_block_prevote_restart_nil; sc_block_prevote_restart_other;
    sc_nil_precommit_restart_block; sc_block_precommit_restart_nil; sc_proposal_restart_other_proposal;
@@ -145,7 +155,8 @@ Definition scenarios : list (list event) :=
    sc_prevote_delay_elapses; sc_precommit_delay_then_commit; sc_stale_round_nil_quorum; sc_future_round_view;
    sc_stale_step_after_committed_header; sc_commit_wait_other_header_first;
    sc_restart_after_valset_change; sc_restart_in_commit_wait_later_round;
-   sc_restart_in_commit_wait_after_valset_change; sc_header_with_altered_next_powers].
+   sc_restart_in_commit_wait_after_valset_change; sc_header_with_altered_next_powers;
+   sc_prevote_majority_is_no_precommit_quorum].
 
 Definition scenario_report : list (list (list N * (list (list N) * list (list N)))) :=
   map (fun es => combine (map enc_event es) (map project (run_events (sm0 true) es))) scenarios.
